@@ -122,19 +122,29 @@ struct Ledger {
   size_t limitBytes = 64u << 20;
   bool overflow = false;
   static size_t h(void* p) { return ((uintptr_t)p >> 4) * 0x9E3779B97F4A7C15ull >> 46; }
+  size_t tomb = 0;
+  void rebuild() {  // drop tombstones (they make probing linear after many alloc/free cycles)
+    void** keep = (void**)malloc(sizeof(void*) * (live + 1)); size_t* ks = (size_t*)malloc(sizeof(size_t) * (live + 1)); size_t n = 0;
+    for (size_t i = 0; i < CAP; ++i) if (tab[i] && tab[i] != (void*)1) { keep[n] = tab[i]; ks[n] = sz[i]; ++n; }
+    memset(tab, 0, sizeof tab); tomb = 0;
+    for (size_t q = 0; q < n; ++q) { size_t i = h(keep[q]) & (CAP - 1); while (tab[i]) i = (i + 1) & (CAP - 1); tab[i] = keep[q]; sz[i] = ks[q]; }
+    free(keep); free(ks);
+  }
   void add(void* p, size_t n) {
     if (live * 2 >= CAP) { overflow = true; liveBytes += n; ++allocs; return; }
+    if ((live + tomb) * 4 >= CAP * 3) rebuild();
     size_t i = h(p) & (CAP - 1);
     while (tab[i] && tab[i] != (void*)1) i = (i + 1) & (CAP - 1);
+    if (tab[i] == (void*)1) --tomb;
     tab[i] = p; sz[i] = n; ++live; liveBytes += n; ++allocs; if (liveBytes > peakBytes) peakBytes = liveBytes;
   }
   bool del(void* p) {
     size_t i = h(p) & (CAP - 1);
     for (size_t k = 0; k < CAP && tab[i]; ++k, i = (i + 1) & (CAP - 1))
-      if (tab[i] == p) { tab[i] = (void*)1; --live; liveBytes -= sz[i]; ++frees; return true; }
+      if (tab[i] == p) { tab[i] = (void*)1; ++tomb; --live; liveBytes -= sz[i]; ++frees; return true; }
     return false;
   }
-  void reset() { memset(tab, 0, sizeof tab); live = liveBytes = allocs = frees = peakBytes = 0; overflow = false; }
+  void reset() { memset(tab, 0, sizeof tab); tomb = 0; live = liveBytes = allocs = frees = peakBytes = 0; overflow = false; }
 };
 extern Ledger g_ledger;
 struct LedgerPause { LedgerPause() { ++g_ledger.pause; } ~LedgerPause() { --g_ledger.pause; } };
@@ -371,6 +381,8 @@ static inline void pbt_free(void* p) {
 }
 void* operator new(size_t n) { return pbt_alloc(n); }
 void* operator new[](size_t n) { return pbt_alloc(n); }
+void* operator new(size_t n, const std::nothrow_t&) noexcept { return pbt_alloc(n); }
+void* operator new[](size_t n, const std::nothrow_t&) noexcept { return pbt_alloc(n); }
 void operator delete(void* p) noexcept { pbt_free(p); }
 void operator delete[](void* p) noexcept { pbt_free(p); }
 void operator delete(void* p, size_t) noexcept { pbt_free(p); }
